@@ -22,7 +22,7 @@ RULE = (
     "innermost context > outer > default (with the suite-pinned exception that a forced sharedmem fallback drops the "
     "context's n_jobs); (4) explicit backend > context backend > default, prefer only chooses among defaults, a resolved "
     "require='sharedmem' yields ValueError or a backend with supports_sharedmem and uses_threads, prefer='processes' + "
-    "require='sharedmem' raises ValueError.  Non-trivial: depth >= 2 with overlapping keys, or two threads with open contexts "
+    "require='sharedmem' raises ValueError or yields such a thread-based backend.  Non-trivial: depth >= 2 with overlapping keys, or two threads with open contexts "
     "at once, or an exceptional exit.  distinct = hash of the history."
 )
 ASSUMPTIONS = [
@@ -328,9 +328,11 @@ def run_case(spec):
                     raise Violation("Parallel(%r) raised %s: %s; %s" % (explicit, type(e).__name__, e, where), signature=["construct-raises"])
                 if exp["must_raise"]:
                     if raised is None:
-                        if exp.get("sharedmem") is None and "class" not in exp:
-                            raise Violation("Parallel(%r) accepted prefer='processes' together with require='sharedmem' -> %r; %s"
-                                            % (explicit, got, where), signature=["inconsistent-accepted"])
+                        if got["supports_sharedmem"] and got["uses_threads"]:
+                            # joblib rejects the combination; an implementation that accepts it and still yields a
+                            # thread-based shared-memory backend satisfies the statement
+                            classes.append("inconsistent-accepted-with-threads")
+                            continue
                         raise Violation("require='sharedmem' is in force but Parallel(%r) built %s (supports_sharedmem=%s, uses_threads=%s); %s"
                                         % (explicit, got["class"], got["supports_sharedmem"], got["uses_threads"], where),
                                         signature=["sharedmem-ignored"])
